@@ -3,6 +3,7 @@ package props
 import (
 	"fmt"
 	"go/ast"
+	"go/constant"
 	"go/token"
 	"go/types"
 	"strings"
@@ -19,11 +20,11 @@ import (
 //     pairs in lexical order, operators >, >=, == only; `x <= c` is `x > c` with the opposite outcome).
 
 type inliner struct {
-	p    *core.Program
-	fi   *core.FuncInfo
-	skip func(fn *types.Func) bool // callees that are events of the rule themselves
-	body map[*ast.CallExpr]*ast.BlockStmt
-	exp  map[ast.Expr]ast.Expr
+	p       *core.Program
+	fi      *core.FuncInfo
+	skip    func(fn *types.Func) bool // callees that are events of the rule themselves
+	body    map[*ast.CallExpr]*ast.BlockStmt
+	exp     map[ast.Expr]ast.Expr
 	asValue bool
 }
 
@@ -571,4 +572,177 @@ func (in *inliner) FixedList(rs *ast.RangeStmt) []ast.Expr {
 		out = append(out, el)
 	}
 	return out
+}
+
+// defunctionalise rewrites the call of a function VALUE that a small selector function hands back,
+//
+//	return pick(k)(args...)        with   func pick(k int) func(...) R { if k out of range { return F0 }; return table[k] }
+//
+// into first-order statements with the same meaning: the body of pick with its parameter replaced by
+// the argument and every `return F` turned into the application of F to args — a method expression
+// (*T).M becomes args[0].M(rest), a function literal its own body with the parameters replaced, a
+// look-up in a package-level table of such values a switch over the table's keys. nil: not of this shape.
+func defunctionalise(p *core.Program, fi *core.FuncInfo, outer *ast.CallExpr) ast.Stmt {
+	info := fi.Pkg.TypesInfo
+	inner, ok := ast.Unparen(outer.Fun).(*ast.CallExpr)
+	if !ok {
+		return nil
+	}
+	fn := calleeFunc(info, inner)
+	if fn == nil || fn.Pkg() != fi.Obj.Pkg() {
+		return nil
+	}
+	cfi := p.FuncOf(fn)
+	if cfi == nil || cfi.Decl.Body == nil || cfi.Decl.Recv != nil {
+		return nil
+	}
+	repl := map[types.Object]ast.Expr{}
+	i := 0
+	for _, f := range cfi.Decl.Type.Params.List {
+		for _, n := range f.Names {
+			if i < len(inner.Args) {
+				repl[info.Defs[n]] = inner.Args[i]
+			}
+			i++
+		}
+	}
+	body, _ := paths.Subst(info, cfi.Decl.Body, repl).(*ast.BlockStmt)
+	if body == nil {
+		return nil
+	}
+	okAll := true
+	var apply func(f ast.Expr, depth int) ast.Stmt
+	apply = func(f ast.Expr, depth int) ast.Stmt {
+		f = ast.Unparen(f)
+		switch v := f.(type) {
+		case *ast.FuncLit:
+			r := map[types.Object]ast.Expr{}
+			k := 0
+			for _, pf := range v.Type.Params.List {
+				if len(pf.Names) == 0 {
+					k++
+					continue
+				}
+				for _, n := range pf.Names {
+					if k < len(outer.Args) && n.Name != "_" {
+						r[info.Defs[n]] = outer.Args[k]
+					}
+					k++
+				}
+			}
+			b, _ := paths.Subst(info, v.Body, r).(*ast.BlockStmt)
+			if b == nil {
+				b = v.Body
+			}
+			return b
+		case *ast.SelectorExpr:
+			// method expression (*T).M / T.M
+			if tv, ok := info.Types[v.X]; ok && tv.IsType() && len(outer.Args) >= 1 {
+				call := &ast.CallExpr{Fun: &ast.SelectorExpr{X: outer.Args[0], Sel: v.Sel}, Lparen: outer.Lparen, Args: outer.Args[1:], Rparen: outer.Rparen}
+				if otv, ok := info.Types[outer]; ok {
+					info.Types[call] = otv
+				}
+				return &ast.ReturnStmt{Return: outer.Pos(), Results: []ast.Expr{call}}
+			}
+		case *ast.Ident:
+			if _, isFn := info.ObjectOf(v).(*types.Func); isFn {
+				call := &ast.CallExpr{Fun: v, Lparen: outer.Lparen, Args: outer.Args, Rparen: outer.Rparen}
+				if otv, ok := info.Types[outer]; ok {
+					info.Types[call] = otv
+				}
+				return &ast.ReturnStmt{Return: outer.Pos(), Results: []ast.Expr{call}}
+			}
+		case *ast.IndexExpr:
+			if depth > 1 {
+				break
+			}
+			tid, ok := ast.Unparen(v.X).(*ast.Ident)
+			if !ok {
+				break
+			}
+			tv, _ := info.ObjectOf(tid).(*types.Var)
+			if tv == nil || tv.Pkg() == nil || tv.Parent() != tv.Pkg().Scope() {
+				break
+			}
+			lit, linfo := (&strEval{p: p, info: info}).pkgVarInit(tv)
+			if lit == nil {
+				break
+			}
+			sw := &ast.SwitchStmt{Switch: outer.Pos(), Tag: v.Index, Body: &ast.BlockStmt{}}
+			for pos, el := range lit.Elts {
+				var key ast.Expr
+				val := el
+				if kv, ok := el.(*ast.KeyValueExpr); ok {
+					key, val = kv.Key, kv.Value
+					if ktv, ok := linfo.Types[key]; ok {
+						info.Types[key] = ktv
+					}
+				} else {
+					bl := &ast.BasicLit{ValuePos: el.Pos(), Kind: token.INT, Value: fmt.Sprint(pos)}
+					info.Types[bl] = types.TypeAndValue{Type: types.Typ[types.Int], Value: constant.MakeInt64(int64(pos))}
+					key = bl
+				}
+				st := apply(val, depth+1)
+				if st == nil {
+					okAll = false
+					return nil
+				}
+				sw.Body.List = append(sw.Body.List, &ast.CaseClause{Case: el.Pos(), List: []ast.Expr{key}, Body: []ast.Stmt{st}})
+			}
+			// a key that is not in the table: a nil function value (map) or an index out of range (array)
+			pc := &ast.CallExpr{Fun: ast.NewIdent("panic"), Args: []ast.Expr{&ast.BasicLit{Kind: token.STRING, Value: `"no such entry"`}}}
+			sw.Body.List = append(sw.Body.List, &ast.CaseClause{Case: outer.Pos(), Body: []ast.Stmt{&ast.ExprStmt{X: pc}}})
+			return sw
+		}
+		okAll = false
+		return nil
+	}
+	var rewrite func(list []ast.Stmt) []ast.Stmt
+	rewrite = func(list []ast.Stmt) []ast.Stmt {
+		out := make([]ast.Stmt, 0, len(list))
+		for _, s := range list {
+			switch v := s.(type) {
+			case *ast.ReturnStmt:
+				if len(v.Results) != 1 {
+					okAll = false
+					return nil
+				}
+				st := apply(v.Results[0], 0)
+				if st == nil {
+					okAll = false
+					return nil
+				}
+				out = append(out, st)
+			case *ast.IfStmt:
+				n := &ast.IfStmt{If: v.If, Init: v.Init, Cond: v.Cond, Body: &ast.BlockStmt{List: rewrite(v.Body.List)}}
+				switch e := v.Else.(type) {
+				case *ast.BlockStmt:
+					n.Else = &ast.BlockStmt{List: rewrite(e.List)}
+				case *ast.IfStmt:
+					r := rewrite([]ast.Stmt{e})
+					if len(r) == 1 {
+						n.Else = r[0]
+					}
+				}
+				out = append(out, n)
+			case *ast.BlockStmt:
+				out = append(out, &ast.BlockStmt{List: rewrite(v.List)})
+			case *ast.SwitchStmt:
+				n := &ast.SwitchStmt{Switch: v.Switch, Init: v.Init, Tag: v.Tag, Body: &ast.BlockStmt{}}
+				for _, cs := range v.Body.List {
+					cl := cs.(*ast.CaseClause)
+					n.Body.List = append(n.Body.List, &ast.CaseClause{Case: cl.Case, List: cl.List, Body: rewrite(cl.Body)})
+				}
+				out = append(out, n)
+			default:
+				out = append(out, s)
+			}
+		}
+		return out
+	}
+	list := rewrite(body.List)
+	if !okAll || list == nil {
+		return nil
+	}
+	return &ast.BlockStmt{Lbrace: outer.Pos(), List: list, Rbrace: outer.End()}
 }
